@@ -15,6 +15,13 @@ open Evp Evp.Gen.Ctor
     (the atomic counters) is initialised — for the table regenerated from the current source. -/
 theorem C10_init : ∀ e ∈ table, e.scalar = true → e.initialised = true := by decide
 
+/-- **… and a copied / moved / fresh object starts with its own counters at zero**: every scalar member
+    is initialised with the literal `0` (or by a constructor that delegates to one that does) — a copy
+    does not inherit the source's `queueNotifyCounter` (a `DisableQueueNotify` alive on the source does
+    not disable the copy) nor its `queueEmptyCounter`. -/
+theorem C10_counters_zero : ∀ e ∈ table, e.scalar = true → e.cls ≠ "SpinLock" →
+    e.init = "0" ∨ e.init = "<delegated>" := by decide
+
 /-- the table really covers the three constructors of the three classes (non-vacuity) -/
 theorem C10_init_covers :
     (table.filter (fun e => e.scalar)).length ≥ 15 ∧
